@@ -75,6 +75,15 @@ def crash_programs():
         b = jnp.tanh(a) + jnp.transpose(x * 2.0, (0, 3, 1, 2))
         return jnp.transpose(b, (0, 2, 3, 1)), jnp.mean(x, axis=(1, 2))
 
+    def p_dup(x):
+        a = jnp.tanh(x)
+        b = jnp.tanh(x)  # duplicate sub-expression: CSE merges it while it fills two output slots
+        return a, b, b
+
+    def p_passthrough(x):
+        y = jnp.transpose(jax.nn.relu(jnp.transpose(x)))
+        return x, y, y + 0.0
+
     rng = np.random.default_rng(0)
 
     def f(*shape):
@@ -87,6 +96,8 @@ def crash_programs():
         "casts_transposes": (p_cast, [(3, 4)], {}, [f(3, 4)]),
         "dropout_swish_opset24": (p_drop, [(3, 4)], dict(opset=24), [f(3, 4)]),
         "transpose_forest": (p_tr, [(2, 4, 4, 3)], {}, [f(2, 4, 4, 3)]),
+        "dup_outputs": (p_dup, [(2, 3)], {}, [f(2, 3)]),
+        "passthrough_outputs": (p_passthrough, [(2, 3)], {}, [f(2, 3)]),
     }
 
 
@@ -244,6 +255,12 @@ def make_unsupported(construct, placement, remove=None):
     if construct == "reverse_scan":
         inner = lambda v, n: lax.scan(lambda c, r: (c * 0.5 + r, c), v, jnp.stack([v, v * 2.0, v * 3.0]), reverse=True)[0]
         return _place_n(inner, placement)
+    if construct == "reverse_scan_len":
+        def inner(v, n):
+            (c, _), ys = lax.scan(lambda cj, _: ((cj[0] * 0.5 + 1.0, cj[1] + 1.0), cj[0] * (cj[1] + 1.0)), (v, jnp.float32(0.0)), None, length=3, reverse=True)
+            return c + ys[0] * 0.25 + ys[2]
+
+        return _place_n(inner, placement)
     if construct == "fori_traced_bounds":
         inner = lambda v, n: lax.fori_loop(0, n, lambda i, c: c * 0.5 + 1.0, v)
         return _place_n(inner, placement)
@@ -346,7 +363,7 @@ def check_unsupported(construct, placement, remove=None, acc=None):
 
 
 def plan(tier, seed):
-    progs = ["conv_nchw", "functions", "loop_reshape", "casts_transposes", "dropout_swish_opset24", "transpose_forest"]
+    progs = ["conv_nchw", "functions", "loop_reshape", "casts_transposes", "dropout_swish_opset24", "transpose_forest", "dup_outputs", "passthrough_outputs"]
     shards = []
     for pn in progs:
         for scope in ("top", "function"):
@@ -360,7 +377,7 @@ def plan(tier, seed):
                 whens = ["before", "after"]
             for half in range(3):
                 shards.append({"kind": "crash", "program": pn, "scope": scope, "ks": ks[half::3], "whens": whens})
-    constructs = [("unknown_primitive", None), ("switch3", None), ("reverse_scan", None), ("fori_traced_bounds", None)] + \
+    constructs = [("unknown_primitive", None), ("switch3", None), ("reverse_scan", None), ("reverse_scan_len", None), ("fori_traced_bounds", None)] + \
                  [("removed_plugin", r) for r in ("tanh", "sin", "exp", "logistic", "erf", "sqrt")]
     items = [(c, pl, r) for c, r in constructs for pl in PLACEMENTS]
     n = 8
